@@ -53,6 +53,14 @@ def entries():
     add("delta2tr", 6, lambda a: b.delta2tr(list(a)))
     add("trinv", 4, lambda a: b.trinv(b.trotx(a[0], t=[a[1], a[2], a[3]])))
     add("trinv2", 3, lambda a: b.trinv2(_trot2(a[0], a[1], a[2])))
+    # a symbolic pose matrix obtained by multiplying with a numeric (float) one: its constant entries are Float(1.0) / 0.0,
+    # not the integers 1 / 0
+    add("trinv2/numeric@sym", 3, lambda a: b.trinv2(refs.rt(refs.rot2(0.3), [0.5, -0.25]) @ _trot2(a[0], a[1], a[2])))
+    add("trinv2/sym@numeric", 3, lambda a: b.trinv2(_trot2(a[0], a[1], a[2]) @ refs.rt(refs.rot2(0.3), [0.5, -0.25])))
+    add("trinv/numeric@sym", 4, lambda a: b.trinv(refs.rt(refs.rotz(0.3), [0.5, -0.25, 2.0]) @ b.trotx(a[0], t=[a[1], a[2], a[3]])))
+    add("trinv/sym@numeric", 4, lambda a: b.trinv(b.trotx(a[0], t=[a[1], a[2], a[3]]) @ refs.rt(refs.rotz(0.3), [0.5, -0.25, 2.0])))
+    add("tr2delta/numeric@sym", 4, lambda a: b.tr2delta(refs.rt(refs.rotz(0.3), [0.5, -0.25, 2.0]) @ b.trotz(a[0], t=[a[1], a[2], a[3]])))
+    add("tr2jac/numeric@sym", 4, lambda a: b.tr2jac(refs.rt(refs.rotz(0.3), [0.5, -0.25, 2.0]) @ b.troty(a[0], t=[a[1], a[2], a[3]])))
     add("tr2delta", 4, lambda a: b.tr2delta(b.trotz(a[0], t=[a[1], a[2], a[3]])))
     add("tr2delta/2", 4, lambda a: b.tr2delta(b.trotx(a[0]), b.trotz(a[1], t=[a[2], a[3], 1])))
     add("tr2jac", 4, lambda a: b.tr2jac(b.troty(a[0], t=[a[1], a[2], a[3]])))
@@ -153,6 +161,11 @@ def entries():
     add("op/SO3*SO3", 2, lambda a: (L.SO3.Rx(a[0]) * L.SO3.Ry(a[1])).A)
     add("op/SO3*point", 1, lambda a: L.SO3.Rz(a[0]) * [1.0, 2.0, 3.0])
     add("op/SO3.inv", 1, lambda a: L.SO3.Rx(a[0]).inv().A)
+    # simplification is cosmetic: the simplified object still evaluates to the numeric result (small constants are numbers too)
+    add("op/SE3.simplify", 3, lambda a: (lambda E: E.simplify().A if _anysym(a) else E.A)(L.SE3.Rx(a[0]) * L.SE3(a[1], a[2], 0.0) * L.SE3.Ry(0.3)))
+    add("op/SE3.simplify/T", 3, lambda a: (lambda E: E.simplify().A if _anysym(a) else E.A)(L.SE3.Tx(a[0]) * L.SE3(a[1], 0.0, a[2])))
+    add("op/SO3.simplify", 2, lambda a: (lambda E: E.simplify().A if _anysym(a) else E.A)(L.SO3.Rx(a[0]) * L.SO3.Rz(a[1])))
+    add("op/sym.simplify", 3, lambda a: np.array([b.sym.simplify(a[0] * a[1] + a[2]) if _anysym(a) else a[0] * a[1] + a[2]]))
     return E
 
 
@@ -200,7 +213,7 @@ def extra_evidence(tier):
 
 def s_sym():
     names = sorted(table())
-    pt = st.one_of(gens.fl(-3, 3), st.sampled_from([0.0, PI / 2, -PI / 2, PI, 1.0, -1.0]), gens.signed_logmag(-3, 3))
+    pt = st.one_of(gens.fl(-3, 3), st.sampled_from([0.0, PI / 2, -PI / 2, PI, 1.0, -1.0]), gens.signed_logmag(-3, 3), gens.signed_logmag(-12, -4))
     return st.fixed_dictionaries({"kind": st.just("sym"), "entry": st.sampled_from(names), "point": st.lists(pt, min_size=6, max_size=6),
                                   "mask": st.lists(st.booleans(), min_size=6, max_size=6),
                                   "numtype": st.sampled_from(["float", "float", "np.float64", "np.int64", "np.int32", "int"]),
@@ -208,7 +221,7 @@ def s_sym():
 
 
 def gen_all(tier):
-    pts = [[0.3, -0.7, 1.1, 0.5, -1.3, 0.9], [PI / 2, 0.0, PI, -PI / 2, 1.0, 2.0]]
+    pts = [[0.3, -0.7, 1.1, 0.5, -1.3, 0.9], [PI / 2, 0.0, PI, -PI / 2, 1.0, 2.0], [0.4, 3e-11, -2e-12, 5e-11, 0.8, -7e-12]]
     for name in sorted(table()):
         for pt in pts:
             for mask in ([True] * 6, [True, False, True, False, True, False], [False, True, True, True, False, True]):
